@@ -7,6 +7,7 @@ import (
 	"bytes"
 	"crypto/sha256"
 	"fmt"
+	"google.golang.org/protobuf/encoding/protowire"
 	"sort"
 	"strconv"
 	"strings"
@@ -59,6 +60,92 @@ func (s sqCase) shape() string {
 		}
 	}
 	return sb.String()
+}
+
+// nonCanonicalOK: whether randSquareCase may re-encode blob transactions non-canonically (off for C02,
+// which compares Deconstruct's canonical re-encoding with the input bytes)
+var nonCanonicalOK = true
+
+// nonCanonical re-encodes the top-level fields of a marshalled BlobTx: type id first or in the middle,
+// an unknown varint / bytes field inserted, the type id duplicated.
+func nonCanonical(r *Rng, raw []byte) []byte {
+	type field struct{ b []byte }
+	var fs []field
+	rest := raw
+	for len(rest) > 0 {
+		num, typ, n := protowire.ConsumeTag(rest)
+		if n < 0 {
+			return raw
+		}
+		m := protowire.ConsumeFieldValue(num, typ, rest[n:])
+		if m < 0 {
+			return raw
+		}
+		fs = append(fs, field{append([]byte{}, rest[:n+m]...)})
+		rest = rest[n+m:]
+	}
+	if len(fs) < 2 {
+		return raw
+	}
+	last := fs[len(fs)-1] // the type id
+	body := fs[:len(fs)-1]
+	var out []field
+	switch r.Intn(4) {
+	case 0: // type id first
+		out = append([]field{last}, body...)
+	case 1: // type id in the middle, unknown varint field 15 at the end
+		k := 1 + r.Intn(len(body))
+		out = append(append(append([]field{}, body[:k]...), last), body[k:]...)
+		out = append(out, field{protowire.AppendVarint(protowire.AppendTag(nil, 15, protowire.VarintType), uint64(r.Intn(1000)))})
+	case 2: // unknown bytes field 9 after the type id
+		out = append(append([]field{}, fs...), field{protowire.AppendBytes(protowire.AppendTag(nil, 9, protowire.BytesType), r.Bytes(r.Intn(12)))})
+	default: // duplicated type id (last wins, same value)
+		out = append(append([]field{last}, body...), last)
+	}
+	var res []byte
+	for _, f := range out {
+		res = append(res, f.b...)
+	}
+	return res
+}
+
+// sameLengthPairCase: two blobs adjacent in namespace order with the SAME data length, share version 0 then 1,
+// the length in the last 20 bytes before a share boundary - the signer costs the version-1 blob one more share -
+// and the share count at a step of the subtree width (1|2, 2|3, 4|5 for small thresholds, 64|65 for threshold 64).
+func sameLengthPairCase(r *Rng, nss [][]byte, ordered bool, max int) ([]genTx, int, int) {
+	thr := pick(r, []int{1, 2, 64})
+	n := pick(r, []int{1, 2, 4})
+	if thr == 64 {
+		n = 64
+		max = pick(r, []int{16, 32})
+	} else if max < 8 {
+		max = 8
+	}
+	dl := 478 + 482*(n-1) - r.Intn(20)
+	ns := nss[0]
+	mk := func(ver uint8) genBlob {
+		b := genBlob{ns: ns, ver: ver, data: r.Bytes(dl)}
+		if ver == 1 {
+			b.signer = r.Bytes(20)
+		}
+		return b
+	}
+	var l []genTx
+	if !ordered && r.Bool(50) {
+		l = append(l, genTx{raw: r.Bytes(1 + r.Intn(600))})
+	}
+	lead := randBlob(r, nss, 700)
+	lead.ns = ns // a blob before the pair so that the cursor is not already a multiple of the larger width
+	b0, b1 := mk(0), mk(1)
+	if r.Bool(50) {
+		bl := []genBlob{lead, b0, b1}
+		l = append(l, genTx{raw: blobTxOf(r, bl), blobs: bl})
+	} else {
+		bl0 := []genBlob{lead, b0}
+		bl1 := []genBlob{b1}
+		l = append(l, genTx{raw: blobTxOf(r, bl0), blobs: bl0}, genTx{raw: blobTxOf(r, bl1), blobs: bl1})
+	}
+	return l, thr, max
 }
 
 // randSquareCase: a transaction list and configuration.  `ordered` puts the
@@ -130,6 +217,63 @@ func randSquareCase(c *Ctx, r *Rng, ordered, tight bool) sqCase {
 			}
 		}
 		c.count("many_blobs")
+	}
+	if tight && r.Intn(9) == 0 {
+		// one blob transaction that fills the whole maximum square by itself: max*max - 1 completely full
+		// blob shares (478 bytes in a first share, 482 in continuation shares) behind a one-share PFB, so the
+		// estimate is exactly max*max and the encoded transaction is longer than the square's payload capacity;
+		// followed by transactions that no longer fit
+		max = pick(r, []int{2, 4, 8})
+		thr = 64
+		var l []genTx
+		for pfbShares := 1; pfbShares <= 3 && l == nil; pfbShares++ {
+			left := max*max - pfbShares
+			var blobs []genBlob
+			for left > 0 {
+				k := 1
+				if left > 1 && r.Bool(30) {
+					k = 1 + r.Intn(min(left, 3))
+				}
+				b := randBlob(r, nss, 100)
+				b.ver = 0
+				b.signer = nil
+				b.data = r.Bytes(478 + 482*(k-1))
+				blobs = append(blobs, b)
+				left -= k
+			}
+			sizes := make([]uint32, len(blobs))
+			for j := range blobs {
+				sizes[j] = uint32(len(blobs[j].data))
+			}
+			raw := blobTxWithInner(mockPFB(r.Bytes(mockPFBExtraBytes), sizes), blobs) // inner tx in the mock PFB format
+			if refEstimate(nil, []refTx{classify(raw)}, thr) == max*max {
+				l = []genTx{{raw: raw, blobs: blobs}}
+			}
+		}
+		if l != nil {
+			for k := r.Intn(3); k > 0; k-- {
+				l = append(l, genTx{raw: r.Bytes(1 + r.Intn(200))})
+			}
+			if ordered { // Construct wants ordinary transactions first
+				l = append(l[1:], l[0])
+			}
+			txs = l
+		}
+		c.count("square_filling_blob_tx")
+	}
+	if r.Intn(10) == 0 {
+		txs, thr, max = sameLengthPairCase(r, nss, ordered, max)
+		c.count("same_length_v0_v1_pair")
+	}
+	if nonCanonicalOK && r.Intn(5) == 0 {
+		// blob transactions in valid but non-canonical protobuf encodings (fields reordered, unknown fields,
+		// a duplicated type id): still the same blob transaction for every decoder that follows the wire format
+		for i := range txs {
+			if txs[i].blobs != nil && r.Bool(50) {
+				txs[i].raw = nonCanonical(r, txs[i].raw)
+				c.count("non_canonical_blob_tx")
+			}
+		}
 	}
 	if tight && !ordered && r.Intn(6) == 0 {
 		// refused appends whose wrapped PFB (or ordinary tx) would still fit the open compact share:
@@ -241,39 +385,73 @@ func genC01(c *Ctx) {
 
 // ---- C02 ----
 func genC02(c *Ctx) {
+	nonCanonicalOK = false
+	defer func() { nonCanonicalOK = true }()
 	c.rule = "ordered lists accepted by Construct (kept lists of greedy builds and fitting lists), multi-blob PFBs, boundary lengths, versions 0/1; Deconstruct(Construct(txs)) compared with txs; non-trivial = distinct non-empty list"
 	r := c.rng
 	c.add("condecon", "4", "64", "")
 	sq, err := square.Construct(nil, 4, 64)
 	txs0, err2 := square.Deconstruct(sq, decodeMockPFB)
 	c.check(err == nil && err2 == nil && len(sq) == 1 && bytes.Equal(sq[0].ToBytes(), refPadding(tailNs, 0)) && len(txs0) == 0, "Construct/Deconstruct", "empty list does not map to the 1x1 tail padding square and back", map[string]any{})
+	var list []sqCase
 	for i := 0; i < 220*c.scale; i++ {
-		s := randSquareCase(c, r, true, r.Bool(50))
-		_, kept, err := keptCase(s)
-		if err != nil {
-			c.check(false, "Build", "error", map[string]any{"case": s.shape()})
-			continue
-		}
-		// keep only non-empty ordinary txs (the property quantifies over non-empty ones)
-		c.add("condecon", strconv.Itoa(s.max), strconv.Itoa(s.thr), joinHexList(kept))
-		wit := map[string]any{"case": s.shape(), "kept": len(kept)}
-		sq, err := square.Construct(kept, s.max, s.thr)
-		if !c.check(err == nil, "Construct", "error on a kept list", wit) {
-			continue
-		}
-		back, err := square.Deconstruct(sq, decodeMockPFB)
-		same := err == nil && len(back) == len(kept)
-		if same {
-			for j := range kept {
-				if !bytes.Equal(back[j], kept[j]) {
-					same = false
-				}
+		list = append(list, randSquareCase(c, r, true, r.Bool(50)))
+	}
+	nModel := len(list)
+	// Go side only: very long units on varint-width boundaries, many-blob PFBs
+	for _, s := range boundaryUnitCases(c, r) {
+		hasBlobTx := false
+		for _, t := range s.txs {
+			if t.blobs != nil {
+				hasBlobTx = true // inner transactions of that family are not in the mock PFB format Deconstruct's decoder needs
 			}
 		}
-		c.check(same, "Deconstruct", "does not return the transactions the square was constructed from", wit)
-		if len(kept) > 0 {
-			c.mark(s.shape())
+		if hasBlobTx {
+			continue
 		}
+		if len(s.txs) > 0 && s.txs[len(s.txs)-1].blobs == nil && len(s.txs[len(s.txs)-1].raw) > 4096 {
+			// make the long transaction non-zero and follow it by a small blob transaction
+			copy(s.txs[len(s.txs)-1].raw, r.Bytes(32))
+			s.txs[len(s.txs)-1].raw[len(s.txs[len(s.txs)-1].raw)-1] = 0x5a
+			nss := blobNamespaces(r, 2)
+			b0 := randBlob(r, nss, 900)
+			bl := []genBlob{b0}
+			s.txs = append(s.txs, genTx{raw: blobTxOf(r, bl), blobs: bl})
+			s.max = 128
+		}
+		list = append(list, s)
+	}
+	for ci, s := range list {
+		ci, s := ci, s
+		c.guard("Construct/Deconstruct", map[string]any{"case": s.shape()}, func() {
+			_, kept, err := keptCase(s)
+			if err != nil {
+				c.check(false, "Build", "error", map[string]any{"case": s.shape()})
+				return
+			}
+			// keep only non-empty ordinary txs (the property quantifies over non-empty ones)
+			if ci < nModel {
+				c.add("condecon", strconv.Itoa(s.max), strconv.Itoa(s.thr), joinHexList(kept))
+			}
+			wit := map[string]any{"case": s.shape(), "kept": len(kept)}
+			sq, err := square.Construct(kept, s.max, s.thr)
+			if !c.check(err == nil, "Construct", "error on a kept list", wit) {
+				return
+			}
+			back, err := square.Deconstruct(sq, decodeMockPFB)
+			same := err == nil && len(back) == len(kept)
+			if same {
+				for j := range kept {
+					if !bytes.Equal(back[j], kept[j]) {
+						same = false
+					}
+				}
+			}
+			c.check(same, "Deconstruct", "does not return the transactions the square was constructed from", wit)
+			if len(kept) > 0 {
+				c.mark(s.shape())
+			}
+		})
 	}
 }
 
@@ -674,7 +852,7 @@ func alignedTxLen(prefix, around, delta int) int {
 func boundaryUnitCases(c *Ctx, r *Rng) []sqCase {
 	var out []sqCase
 	nss := blobNamespaces(r, 3)
-	for _, around := range []int{1 << 14, 1<<14 + 200, 1 << 20, 1<<20 + 700, 1<<21 - 700, 1 << 21} {
+	for _, around := range []int{1 << 14, 1<<14 + 200, 1 << 20, 1<<20 + 700, 1<<21 - 700, 1 << 21, 1<<21 + 700, 1<<21 + 9000} {
 		for delta := 0; delta <= 1; delta++ {
 			prefix := 0
 			var l []genTx
@@ -816,11 +994,25 @@ func genC12(c *Ctx) {
 		if !c.check(err == nil, "WrappedPFBs", "error", wit) {
 			continue
 		}
-		var normals [][]byte
-		for _, k := range kept {
-			if _, isBlob, _ := tx.UnmarshalBlobTx(k); !isBlob {
-				normals = append(normals, k)
+		// which kept transactions are blob transactions is known from how the generator built them
+		// (not asked of the decoder under test)
+		builtAsBlobTx := map[string]bool{}
+		for _, t := range s.txs {
+			if t.blobs != nil {
+				builtAsBlobTx[string(t.raw)] = true
 			}
+		}
+		var normals [][]byte
+		nBlobTx := 0
+		for _, k := range kept {
+			if !builtAsBlobTx[string(k)] {
+				normals = append(normals, k)
+			} else {
+				nBlobTx++
+			}
+		}
+		if !c.check(len(wpfbs) == nBlobTx, "WrappedPFBs", "the square does not hold one wrapped PFB per kept blob transaction", wit) {
+			continue
 		}
 		txShares := 0
 		{
